@@ -9,6 +9,7 @@ REPLAY  every transition on a real Event and Todo (from-state rebuilt), every st
 RECORD  random mutator sequences with arbitrary times.
 VALIDATE spec/Trace_StartEnd: RefStep, RefAllowed, identities, exclusivity per call.
 """
+import json
 import random
 from datetime import date, datetime, timedelta, timezone
 from zoneinfo import ZoneInfo
@@ -304,11 +305,47 @@ def run(ctx: Ctx):
                     break
                 cur = v["post"]
 
+    # ------------------------------------------------------------- the same transitions across a DST change
+    # gamma maps hour 0 to 2024-03-29T00:00, so that Europe/Berlin switches to +2h at hour 50: zoned values keep the model's
+    # wall-clock arithmetic (end = start + DURATION and end - start = duration are statements about wall time in one zone);
+    # transitions that relate zoned to UTC values are left to the fixed-offset pass above
+    global BASE
+    base0 = BASE
+
+    def no_utc(x):
+        return '"utc"' not in json.dumps(x)
+    try:
+        BASE = datetime(2024, 3, 29)
+        ndst = 0
+        for cls in (Event, Todo):
+            for v in trans:
+                if not (no_utc(v["pre"]) and no_utc(v["o"]) and no_utc(v["post"]) and no_utc(v["obs"])) or '"zoned"' not in json.dumps([v["pre"], v["o"]]):
+                    continue
+                ndst += 1
+                ctx.case((cls.__name__, "dst", repr(v["pre"]), repr(v["o"])), True)
+                comp = build(cls, v["pre"])
+                if slots(comp) != v["pre"]:
+                    raise Machinery(f"gamma/alpha self-check failed (DST base) {v['pre']}")
+                try:
+                    apply(comp, v["o"])
+                except Exception as e:   # noqa: BLE001
+                    ctx.fail(f"P:C16:step-{v['o']['op']}", {"cls": cls.__name__, "pre": v["pre"], "o": v["o"], "base": "dst"}, type(e).__name__, v["post"])
+                    continue
+                judge(cls.__name__, v["pre"], v["o"], v["post"], v["obs"], comp, "transition-dst")
+        if ndst < 100:
+            raise Machinery(f"DST pass: too few zoned transitions ({ndst})")
+    finally:
+        BASE = base0
+
     # ------------------------------------------------------------- RECORD: arbitrary times
     nseq = 60 if ctx.quick else 600
     kinds = ["date", "naive", "utc", "zoned"]
     for i in range(nseq):
         cls = (Event, Todo)[i % 2]
+        if i % 3 == 2:
+            BASE, kinds = datetime(2024, 3, 29), ["date", "naive", "zoned"]     # every third sequence crosses the DST change
+        else:
+            BASE, kinds = base0, ["date", "naive", "utc", "zoned"]
         comp = cls()
         ev.append({"o": {"op": "reset", "v": ABSENT}, "post": {"dtstart": ABSENT, "endp": ABSENT, "dur": ABSENT},
                    "obs": observe(comp)})
@@ -338,6 +375,7 @@ def run(ctx: Ctx):
             ev.append({"o": o, "post": slots(comp), "obs": observe(comp)})
             meta.append({"cls": cls.__name__, "pre": pre, "o": o})
             ctx.case((cls.__name__, "rnd", i, j), True)
+    BASE = base0
     ctx.sample({"trace_event": ev[-1]})
     for idx, clause, known in ctx.validate_trace("Trace_StartEnd", ev, cfg_text(spec="Spec"), chunk=10000, timeout=3000,
                                                  boundary=lambda e: e["o"]["op"] == "reset"):
